@@ -1,6 +1,7 @@
 //! `sim` — entry point of the simulation engines. Invoked by /verif/check.
 
 mod common;
+mod e1;
 mod e2;
 mod e3;
 mod e5;
@@ -29,6 +30,7 @@ fn plan_for(prop: &str) -> Option<Plan> {
         "C08" | "C09" | "C10" | "C11" | "C15" | "C16" => Plan { engine: "queue", quick_runs: 250_000, thorough_runs: 20_000_000, sweep_every: 0, note: "the wrapped sink is scripted; crossbeam's blocking paths are replaced by simulated waiting; capacity 0 (rendezvous) is excluded from every oracle except no-panic" },
         "C12" | "C13" | "C14" => Plan { engine: "sockets", quick_runs: 200_000, thorough_runs: 20_000_000, sweep_every: 0, note: "UDP/Unix datagram sockets are in-memory stubs (ledger + injectable result per send); the real kernel socket is not exercised" },
         "C18" => Plan { engine: "holder", quick_runs: 300_000, thorough_runs: 30_000_000, sweep_every: 0, note: "the simulated execution is sequentially consistent; the memory-ordering half of the property is decided by a vector-clock happens-before tracker fed with the orderings written in the source (release sequences, acquire loads/RMWs, failed-CAS orderings, spawn/join edges)" },
+        "C03" => Plan { engine: "sinkfault", quick_runs: 150_000, thorough_runs: 10_000_000, sweep_every: 10, note: "the client's sink is scripted; the text of the line is not compared with a formatter model (that is C01/C04), only 'what was returned is what was emitted'" },
         _ => return None,
     })
 }
@@ -111,6 +113,7 @@ fn main() {
             };
             match plan.engine {
                 "linebuf" => run_batch::<e2::E2>(&ba),
+                "sinkfault" => run_batch::<e1::E1>(&ba),
                 "queue" => run_batch::<e3::E3>(&ba),
                 "sockets" => run_batch::<e5::E5>(&ba),
                 "holder" => run_batch::<e6::E6>(&ba),
@@ -136,6 +139,7 @@ fn main() {
             let quiet = has("--quiet");
             match rf.engine.as_str() {
                 "linebuf" => replay::<e2::E2>(&rf, quiet),
+                "sinkfault" => replay::<e1::E1>(&rf, quiet),
                 "queue" => replay::<e3::E3>(&rf, quiet),
                 "sockets" => replay::<e5::E5>(&rf, quiet),
                 "holder" => replay::<e6::E6>(&rf, quiet),
@@ -156,6 +160,7 @@ fn main() {
                 ("sockets/C12", selftest::<e5::E5>("C12", seeds, 16, DEFAULT_SEED)),
                 ("sockets/C14", selftest::<e5::E5>("C14", seeds, 16, DEFAULT_SEED)),
                 ("holder/C18", selftest::<e6::E6>("C18", seeds, 16, DEFAULT_SEED)),
+                ("sinkfault/C03", selftest::<e1::E1>("C03", seeds, 16, DEFAULT_SEED)),
             ] {
                 match r {
                     Ok(n) => println!("selftest {name}: {n} seeds x 2 executions identical"),
